@@ -24,6 +24,7 @@ import (
 	"github.com/smartcontractkit/chainlink-automation/tools/simulator/simulate/chain"
 	"github.com/smartcontractkit/chainlink-automation/tools/simulator/simulate/loader"
 	"github.com/smartcontractkit/chainlink-automation/tools/simulator/simulate/ocr"
+	"github.com/smartcontractkit/chainlink-automation/tools/simulator/simulate/upkeep"
 	simutil "github.com/smartcontractkit/chainlink-automation/tools/simulator/util"
 	ocr2keepers "github.com/smartcontractkit/chainlink-common/pkg/types/automation"
 )
@@ -63,22 +64,39 @@ type c19Tx struct {
 }
 
 type c19Input struct {
-	Genesis    string     `json:"genesis"`
-	Count      int        `json:"count"`   // blocks broadcast
-	Pad        int        `json:"pad"`     // how many of them come from EndPadding
-	CadenceMs  int        `json:"cadence"` // ms
-	Subs       int        `json:"subs"`
-	Native     bool       `json:"native"`
-	MaxDelayMs int        `json:"maxDelay"` // native mode: BlockBroadcaster maxDelay
-	Delays     [][]int    `json:"delays"`   // proxy mode: [subscriber][block index] ms
-	Reports    [][]JCR    `json:"reports"`
-	Raw        []string   `json:"raw"`              // parallel to Reports: non-empty = the report's bytes as they are (undecodable); Reports[i] is then empty
-	Stress     *c19Stress `json:"stress,omitempty"` // an un-timed Transmit ∥ Load case instead of a chain run
-	Txs        []c19Tx    `json:"txs"`
-	Queries    []int64    `json:"queries"` // µs; proxy mode only
-	Attach     []int64    `json:"attach"`  // per subscriber, µs: when it subscribes (0: before Start); proxy mode only
-	Detach     []int64    `json:"detach"`  // per subscriber, µs: when it unsubscribes (0: never); proxy mode only
-	Stalls     []c19Stall `json:"stalls"`  // proxy mode only: a node's plugin side stops reading for a while
+	Genesis     string       `json:"genesis"`
+	Count       int          `json:"count"`   // blocks broadcast
+	Pad         int          `json:"pad"`     // how many of them come from EndPadding
+	CadenceMs   int          `json:"cadence"` // ms
+	Subs        int          `json:"subs"`
+	Native      bool         `json:"native"`
+	MaxDelayMs  int          `json:"maxDelay"` // native mode: BlockBroadcaster maxDelay
+	Delays      [][]int      `json:"delays"`   // proxy mode: [subscriber][block index] ms
+	Reports     [][]JCR      `json:"reports"`
+	Raw         []string     `json:"raw"`              // parallel to Reports: non-empty = the report's bytes as they are (undecodable); Reports[i] is then empty
+	Stress      *c19Stress   `json:"stress,omitempty"` // an un-timed Transmit ∥ Load case instead of a chain run
+	Txs         []c19Tx      `json:"txs"`
+	Queries     []int64      `json:"queries"`     // µs; proxy mode only
+	Attach      []int64      `json:"attach"`      // per subscriber, µs: when it subscribes (0: before Start); proxy mode only
+	Detach      []int64      `json:"detach"`      // per subscriber, µs: when it unsubscribes (0: never); proxy mode only
+	Stalls      []c19Stall   `json:"stalls"`      // proxy mode only: a node's plugin side stops reading for a while
+	Upkeeps     []c19Upkeeps `json:"upkeeps"`     // upkeep creations mined into blocks (UpkeepConfigLoader)
+	Logs        []c19LogEv   `json:"logs"`        // log events mined into blocks (LogTriggerLoader)
+	SwapLoaders bool         `json:"swapLoaders"` // block loaders in the order upkeeps, logs, transmits instead of node.Group's transmits, upkeeps, logs
+	Grace       int64        `json:"grace"`       // µs a delivery may be in transit when a subscriber unsubscribes: MaxDelayMs*1000 (set by the normaliser)
+}
+
+// c19Upkeeps: Count upkeeps with ids Start+1 … Start+Count are created in block Block (index)
+type c19Upkeeps struct {
+	Block int     `json:"block"`
+	Start int64   `json:"start"`
+	Count int     `json:"count"`
+	Log   bool    `json:"log"` // log-trigger instead of conditional upkeeps
+	IDs   []int64 `json:"ids"` // Start+1 … Start+Count (filled by the normaliser; what the model reads)
+}
+type c19LogEv struct {
+	Block int    `json:"block"`
+	Value string `json:"value"`
 }
 
 // c19Stall: from From to To (µs) the consumer of subscriber Sub's block
@@ -97,10 +115,11 @@ type c19JTx struct {
 	Round uint64 `json:"round"`
 }
 type c19JBlock struct {
-	N  string   `json:"n"`
-	H  string   `json:"h"`
-	Tx []c19JTx `json:"tx"`
-	C  string   `json:"c"` // digest of the rendered block content
+	N       string   `json:"n"`
+	H       string   `json:"h"`
+	Tx      []c19JTx `json:"tx"`
+	C       string   `json:"c"`       // digest of the rendered block content
+	Created []int64  `json:"created"` // ids of the upkeeps created in the block
 }
 type c19JEv struct {
 	WID   string `json:"wid"`
@@ -110,9 +129,10 @@ type c19JEv struct {
 	Round uint64 `json:"round"`
 }
 type c19JSub struct {
-	Recv   []int      `json:"recv"`  // indices into dict
-	Slow   []int      `json:"slow"`  // the same blocks as seen by the stallable consumer
-	Hists  [][]int64  `json:"hists"` // flat [number-genesis, hash id, …]
+	Recv   []int      `json:"recv"`   // indices into dict
+	Slow   []int      `json:"slow"`   // the same blocks as seen by the stallable consumer
+	Active []int64    `json:"active"` // ids known to the node's ActiveTracker at the end, ascending
+	Hists  [][]int64  `json:"hists"`  // flat [number-genesis, hash id, …]
 	Events [][]c19JEv `json:"events"`
 	Seen   []int      `json:"seen"` // per query: blocks received when it was made
 }
@@ -220,7 +240,7 @@ func c19Normalise(in *c19Input) {
 	sort.Slice(in.Queries, func(i, j int) bool { return in.Queries[i] < in.Queries[j] })
 	at := make([]int64, in.Subs)
 	dt := make([]int64, in.Subs)
-	if !in.Native {
+	{
 		for i := range at {
 			if i < len(in.Attach) && in.Attach[i] > 0 {
 				at[i] = offGrid(in.Attach[i])
@@ -264,6 +284,31 @@ func c19Normalise(in *c19Input) {
 			in.Detach[i] = uniq(in.Detach[i])
 		}
 	}
+	in.Grace = int64(in.MaxDelayMs) * 1000
+	ups := []c19Upkeeps{}
+	next := int64(0)
+	for _, u := range in.Upkeeps {
+		if u.Block < 0 || u.Block >= in.Count || u.Count < 1 {
+			continue
+		}
+		if u.Start < next {
+			u.Start = next // disjoint id ranges
+		}
+		u.IDs = make([]int64, u.Count)
+		for k := range u.IDs {
+			u.IDs[k] = u.Start + int64(k) + 1
+		}
+		next = u.Start + int64(u.Count)
+		ups = append(ups, u)
+	}
+	in.Upkeeps = ups
+	lgs := []c19LogEv{}
+	for _, l := range in.Logs {
+		if l.Block >= 0 && l.Block < in.Count {
+			lgs = append(lgs, l)
+		}
+	}
+	in.Logs = lgs
 	stalls := []c19Stall{}
 	stalled := map[int]bool{}
 	if !in.Native {
@@ -373,6 +418,20 @@ func (p *c19Proxy) shutdown() {
 	p.wg.Wait()
 }
 
+// c19SubscriptionID reads the id a Listener got from its block source (unexported field, read only).
+func c19SubscriptionID(l *chain.Listener) (id int, ok bool) {
+	defer func() {
+		if recover() != nil {
+			ok = false
+		}
+	}()
+	v := reflect.ValueOf(l).Elem().FieldByName("subscriptionID")
+	if !v.IsValid() {
+		return 0, false
+	}
+	return int(v.Int()), true
+}
+
 // c19CloseDone does what the unexported stop() of Listener /
 // BlockHistoryTracker / ReportTracker does: close(chDone).
 func c19CloseDone(x any) (err error) {
@@ -403,8 +462,13 @@ type c19Node struct {
 	listener *chain.Listener
 	tracker  *chain.BlockHistoryTracker
 	reports  *ocr.ReportTracker
+	active   *upkeep.ActiveTracker
+	performs *upkeep.PerformTracker
+	logs     *upkeep.LogTriggerTracker
+	cfg      *ocr.OCR3ConfigTracker
 	proxy    *c19Proxy
 	histID   int
+	stopped  bool // its listener and trackers were stopped mid-run (a node going away)
 
 	mu     sync.Mutex
 	recv   []chain.Block
@@ -450,7 +514,7 @@ func c19Run(t *testing.T, in c19Input) c19Impl {
 
 	// canon renders a block value as it is NOW (number, hash, transmits, digest of everything else)
 	canon := func(b chain.Block) c19JBlock {
-		jb := c19JBlock{N: "nil", H: hx(b.Hash[:]), Tx: []c19JTx{}}
+		jb := c19JBlock{N: "nil", H: hx(b.Hash[:]), Tx: []c19JTx{}, Created: []int64{}}
 		if b.Number != nil {
 			jb.N = b.Number.String()
 		}
@@ -467,6 +531,11 @@ func c19Run(t *testing.T, in c19Input) c19Impl {
 					other = append(other, fmt.Sprintf("transmit %s %x %x %d %s %x", e.SendingAddress, e.Report, e.Hash, e.Round, bn, e.BlockHash))
 				}
 				other = append(other, "end-perform")
+			case chain.UpkeepCreatedTransaction:
+				if v.Upkeep.ID != nil && v.Upkeep.ID.IsInt64() {
+					jb.Created = append(jb.Created, v.Upkeep.ID.Int64())
+				}
+				other = append(other, fmt.Sprintf("%T %v", tx, tx))
 			default:
 				other = append(other, fmt.Sprintf("%T %v", tx, tx))
 			}
@@ -486,7 +555,41 @@ func c19Run(t *testing.T, in c19Input) c19Impl {
 		Duration:   in.Count - 1 - in.Pad,
 		EndPadding: in.Pad,
 	}
-	bb := chain.NewBlockBroadcaster(conf, in.MaxDelayMs, quietLogger, nil, tl.Load)
+	// the other block loaders of node.Group: upkeep creations and log events from the simulation plan
+	plan := config.SimulationPlan{Blocks: conf}
+	for _, u := range in.Upkeeps {
+		ev := config.GenerateUpkeepEvent{
+			Event:           config.Event{Type: config.GenerateUpkeepEventType, TriggerBlock: new(big.Int).Add(genesis, big.NewInt(int64(u.Block)))},
+			Count:           u.Count,
+			StartID:         big.NewInt(u.Start),
+			EligibilityFunc: "never",
+			UpkeepType:      config.ConditionalUpkeepType,
+			Expected:        config.NoneExpected,
+		}
+		if u.Log {
+			ev.UpkeepType, ev.LogTriggeredBy = config.LogTriggerUpkeepType, "log-value"
+		}
+		plan.GenerateUpkeeps = append(plan.GenerateUpkeeps, ev)
+	}
+	for _, l := range in.Logs {
+		plan.LogEvents = append(plan.LogEvents, config.LogTriggerEvent{
+			Event:        config.Event{Type: config.LogTriggerEventType, TriggerBlock: new(big.Int).Add(genesis, big.NewInt(int64(l.Block)))},
+			TriggerValue: l.Value,
+		})
+	}
+	lUpkeep, err := loader.NewUpkeepConfigLoader(plan, nil)
+	if err != nil {
+		t.Fatalf("NewUpkeepConfigLoader: %v", err)
+	}
+	lLogs, err := loader.NewLogTriggerLoader(plan, nil)
+	if err != nil {
+		t.Fatalf("NewLogTriggerLoader: %v", err)
+	}
+	loaders := []chain.BlockLoaderFunc{tl.Load, lUpkeep.Load, lLogs.Load} // node.Group's order (without the OCR3 config loader)
+	if in.SwapLoaders {
+		loaders = []chain.BlockLoaderFunc{lUpkeep.Load, lLogs.Load, tl.Load}
+	}
+	bb := chain.NewBlockBroadcaster(conf, in.MaxDelayMs, quietLogger, nil, loaders...)
 
 	// undelayed observer of the chain as broadcast
 	var (
@@ -511,13 +614,11 @@ func c19Run(t *testing.T, in c19Input) c19Impl {
 
 	stopCollect := make(chan struct{})
 	nodes := make([]*c19Node, in.Subs)
-	nativeIDs := []int{}
 	// attach builds what hydrator.go builds per node on the shared broadcaster
 	attach := func(s int) {
 		n := &c19Node{fin: make(chan struct{}), finObs: make(chan struct{}), pause: make(chan struct{}), resume: make(chan struct{})}
 		if in.Native {
 			n.listener = chain.NewListener(bb, quietLogger)
-			nativeIDs = append(nativeIDs, srcID+1+s)
 		} else {
 			n.proxy = &c19Proxy{bb: bb, genesis: genesis, delays: in.Delays[s], stop: make(chan struct{})}
 			n.listener = chain.NewListener(n.proxy, quietLogger)
@@ -525,6 +626,11 @@ func c19Run(t *testing.T, in c19Input) c19Impl {
 		synctest.Wait() // the listener's goroutine has subscribed: ids are assigned in creation order
 		n.tracker = chain.NewBlockHistoryTracker(n.listener, quietLogger)
 		n.reports = ocr.NewReportTracker(n.listener, quietLogger)
+		// the other consumers simulate.HydrateConfig puts on a node's listener
+		n.active = upkeep.NewActiveTracker(n.listener, quietLogger)
+		n.performs = upkeep.NewPerformTracker(n.listener, quietLogger)
+		n.logs = upkeep.NewLogTriggerTracker(n.listener, n.active, n.performs, quietLogger)
+		n.cfg = ocr.NewOCR3ConfigTracker(n.listener, quietLogger)
 		id, chH, err := n.tracker.Subscribe()
 		if err != nil {
 			t.Fatalf("tracker.Subscribe: %v", err)
@@ -585,6 +691,16 @@ func c19Run(t *testing.T, in c19Input) c19Impl {
 		}
 	}
 	synctest.Wait()
+
+	leak := []string{}
+	stopNode := func(n *c19Node) {
+		n.stopped = true
+		for _, x := range []any{n.tracker, n.reports, n.active, n.performs, n.logs, n.cfg, n.listener} {
+			if err := c19CloseDone(x); err != nil {
+				leak = append(leak, err.Error())
+			}
+		}
+	}
 
 	transmitters := map[int]*ocr.OCR3Transmitter{}
 	transmitter := func(n int) *ocr.OCR3Transmitter {
@@ -685,6 +801,16 @@ func c19Run(t *testing.T, in c19Input) c19Impl {
 			if n := nodes[o.detach]; n != nil && n.proxy != nil {
 				n.proxy.detach() // Unsubscribe on the real broadcaster
 				synctest.Wait()
+			} else if n != nil && !n.stopped {
+				// the node goes away: what Listener.stop() and the trackers' stop() do (run loops first, so
+				// that nobody reads the channel Unsubscribe closes); deliveries still in transit hit the
+				// closed channel and are dropped by the broadcaster's recover path
+				stopNode(n)
+				synctest.Wait()
+				if id, ok := c19SubscriptionID(n.listener); ok {
+					bb.Unsubscribe(id)
+				}
+				synctest.Wait()
 			}
 			continue
 		}
@@ -724,13 +850,10 @@ func c19Run(t *testing.T, in c19Input) c19Impl {
 		<-n.fin
 		<-n.finObs
 	}
-	leak := []string{}
 	for _, n := range nodes {
-		_ = n.tracker.Unsubscribe(n.histID)
-		for _, x := range []any{n.tracker, n.reports, n.listener} {
-			if err := c19CloseDone(x); err != nil {
-				leak = append(leak, err.Error())
-			}
+		if !n.stopped {
+			_ = n.tracker.Unsubscribe(n.histID)
+			stopNode(n)
 		}
 	}
 	synctest.Wait()
@@ -740,8 +863,12 @@ func c19Run(t *testing.T, in c19Input) c19Impl {
 				n.proxy.shutdown()
 			}
 		}
-		for _, id := range nativeIDs {
-			bb.Unsubscribe(id)
+		for _, n := range nodes {
+			if n.proxy == nil {
+				if id, ok := c19SubscriptionID(n.listener); ok {
+					bb.Unsubscribe(id) // no-op for a node that went away mid-run
+				}
+			}
 		}
 		bb.Unsubscribe(srcID)
 		<-srcFin
@@ -805,6 +932,17 @@ func c19Run(t *testing.T, in c19Input) c19Impl {
 		for _, b := range n.recv {
 			js.Recv = append(js.Recv, blockIdx(b))
 		}
+		js.Active = []int64{}
+		for _, ty := range []chain.UpkeepType{chain.ConditionalType, chain.LogTriggerType} {
+			for _, u := range n.active.GetAllByType(ty) {
+				if u.ID != nil && u.ID.IsInt64() {
+					js.Active = append(js.Active, u.ID.Int64())
+				} else {
+					js.Active = append(js.Active, -1)
+				}
+			}
+		}
+		sort.Slice(js.Active, func(i, j int) bool { return js.Active[i] < js.Active[j] })
 		js.Slow = []int{}
 		for _, b := range n.slow {
 			js.Slow = append(js.Slow, blockIdx(b))
@@ -1076,7 +1214,7 @@ func c19Gen(r *Rng, em *Emitter) c19Input {
 	em.Hit(fmt.Sprintf("blocks=%d", bucket(in.Count)))
 	em.Hit(fmt.Sprintf("subs=%d", in.Subs))
 
-	in.Native = !big_ && in.Count <= 60 && r.Chance(15)
+	in.Native = !big_ && in.Count <= 60 && r.Chance(22)
 	if in.Native {
 		in.MaxDelayMs = in.CadenceMs * r.Range(2, 5)
 		em.Hit("mode=native")
@@ -1119,9 +1257,27 @@ func c19Gen(r *Rng, em *Emitter) c19Input {
 			in.Delays[s] = d
 		}
 	}
+	// a node restarting under the broadcaster's own random delays: it goes away (Unsubscribe) while blocks
+	// may be in transit to it, and a new node attaches shortly after (sometimes within the delay window)
+	if in.Native && r.Chance(70) {
+		wspan := uint64(in.Count) * uint64(in.CadenceMs) * 1000
+		in.Attach = make([]int64, in.Subs+1)
+		in.Detach = make([]int64, in.Subs+1)
+		t := 1 + int64(r.U64()%wspan)
+		in.Detach[r.Intn(in.Subs)] = t
+		gap := uint64(in.MaxDelayMs*1200 + 1) // sometimes after everything in transit has fired
+		if r.Chance(65) {
+			gap = uint64(in.MaxDelayMs*150 + 1) // mostly well inside the delay window
+		}
+		in.Attach[in.Subs] = t + 1 + int64(r.U64()%gap)
+		in.Subs++
+		em.Hit("native-restart")
+	}
 	// subscribers leaving and joining while the chain runs
-	in.Attach = make([]int64, in.Subs)
-	in.Detach = make([]int64, in.Subs)
+	if in.Attach == nil {
+		in.Attach = make([]int64, in.Subs)
+		in.Detach = make([]int64, in.Subs)
+	}
 	if !in.Native {
 		wspan := uint64(in.Count+1) * uint64(in.CadenceMs) * 1000
 		if in.Subs >= 2 && r.Chance(40) {
@@ -1257,6 +1413,25 @@ func c19Gen(r *Rng, em *Emitter) c19Input {
 			}
 		}
 	}
+	// other transactions mined into the same blocks: upkeep creations and log events, preferably where a
+	// perform transaction lands as well; block loaders in either order
+	if r.Chance(55) {
+		c := int64(in.CadenceMs) * 1000
+		for n := r.Range(1, 3); n > 0; n-- {
+			b := r.Intn(in.Count)
+			if len(in.Txs) > 0 && r.Chance(70) {
+				if bi := int(in.Txs[r.Intn(len(in.Txs))].At/c) + 1; bi < in.Count {
+					b = bi
+				}
+			}
+			in.Upkeeps = append(in.Upkeeps, c19Upkeeps{Block: b, Start: int64(r.Range(0, 50)), Count: r.Range(1, 4), Log: r.Chance(30)})
+			if r.Chance(40) {
+				in.Logs = append(in.Logs, c19LogEv{Block: b, Value: "log-value"})
+			}
+		}
+		in.SwapLoaders = r.Chance(35)
+		em.Hit("upkeep-creations")
+	}
 	// a node whose plugin side stops reading for a while: the listener's subscribers fall behind,
 	// by more than their 100-slot buffers when the chain is long enough
 	if !in.Native && r.Chance(60) {
@@ -1371,6 +1546,17 @@ func c19Edge() []c19Input {
 		}
 		out = append(out, e)
 	}
+	// a block that carries a perform transaction AND upkeep creations AND a log, block loaders in either order
+	for _, swap := range []bool{false, true} {
+		out = append(out, c19Input{Genesis: "98", Count: 6, CadenceMs: 100, Subs: 2, Delays: [][]int{make([]int, 6), {30, 30, 30, 30, 30, 30}},
+			Reports: [][]JCR{rep(2)}, Txs: []c19Tx{{At: 150137, Rep: 0, Round: 1, Nodes: []int{0, 1}}},
+			Upkeeps: []c19Upkeeps{{Block: 2, Start: 10, Count: 2}, {Block: 4, Start: 20, Count: 1, Log: true}},
+			Logs:    []c19LogEv{{Block: 2, Value: "log-value"}}, SwapLoaders: swap, Queries: []int64{350137}})
+	}
+	// a node restarts under the broadcaster's own delays (up to 45 ms at a 10 ms cadence): node 0 goes away at
+	// 60.137 ms with blocks in transit, a new node attaches 5 ms later
+	out = append(out, c19Input{Genesis: "95", Count: 20, CadenceMs: 10, Subs: 3, Native: true, MaxDelayMs: 45,
+		Detach: []int64{60137, 0, 0}, Attach: []int64{0, 0, 60637}})
 	for i := range out {
 		c19Normalise(&out[i])
 	}
